@@ -6,7 +6,7 @@
 From Coq Require Import List ZArith NArith Bool String.
 Import ListNotations.
 From DD Require Import Base.PyStr Base.Value Hash.HashModel Hash.Equiv
-  Hash.HashProofsBase Hash.HashProofsC06 Hash.HashProofsC07 Hash.HashProofsMemo.
+  Hash.HashProofsBase Hash.HashProofsC06 Hash.HashProofsC07 Hash.HashProofsMemo Hash.HashProofsK2 Hash.HexHash.
 
 (* Full strength (all plain option records in the property's three modes, all
    values) is false of the faithful model: K1 and K4 below. *)
@@ -115,6 +115,72 @@ Proof.
   eapply C07_hash_inj_partial; eauto.
 Qed.
 Print Assumptions C07_deephash_inj_partial.
+
+(* K2 as a collision, for every hasher whatsoever *)
+Theorem C07_memo_any_hasher_refuted : forall H : pystr -> pystr,
+  deephash H default_opts (VList [VAtom (AInt 1); VAtom (AHalf 2)]) =
+  deephash H default_opts (VList [VAtom (AInt 1)]).
+Proof. exact memo_collision_any. Qed.
+Print Assumptions C07_memo_any_hasher_refuted.
+
+(* The hasher the correspondence check runs - hex of the UTF-8 encoding - satisfies the hypotheses on strings of
+   code points below 0x110000 ... *)
+Theorem C07_hexhash_satisfies_hypotheses :
+  (forall s, str_ok s -> s <> [] -> sepfree (hexhash s)) /\
+  (forall s t, str_ok s -> str_ok t -> hexhash s = hexhash t -> s = t) /\
+  (forall o v, val_okb v = true -> str_ok (ser hexhash o v)).
+Proof.
+  split; [exact hexhash_tok|split; [exact hexhash_inj|]].
+  intros o v Hv. apply (hexhash_total_agrees o v Hv).
+Qed.
+Print Assumptions C07_hexhash_satisfies_hypotheses.
+
+(* ... so for that hasher the theorems hold with NO hypothesis on the hasher ([val_okb]: every str / bytes of the
+   value consists of code points below 0x110000 - true of every Python str). *)
+Theorem C07_hash_inj_hexhash_partial :
+  forall o a b,
+  plain o = true -> ignore_iterable_order o = true ->
+  tag_safe a = true -> tag_safe b = true -> wf a = true -> wf b = true ->
+  val_okb a = true -> val_okb b = true ->
+  hash_pure hexhash o a = hash_pure hexhash o b -> eqv o a b.
+Proof.
+  intros o a b Hp Hio Ta Tb Wa Wb Va Vb He.
+  apply (hash_inj_hexhash o a b Hp); auto.
+  - unfold std_mode. rewrite Hio. reflexivity.
+  - unfold mode_guard. rewrite Hio. reflexivity.
+  - unfold mode_guard. rewrite Hio. reflexivity.
+Qed.
+Print Assumptions C07_hash_inj_hexhash_partial.
+
+Theorem C07_hash_inj_ordered_hexhash_partial :
+  forall o a b,
+  plain o = true -> ignore_iterable_order o = false -> ignore_repetition o = false ->
+  tag_safe a = true -> tag_safe b = true -> wf a = true -> wf b = true ->
+  val_okb a = true -> val_okb b = true ->
+  distinct_items hexhash o a = true -> distinct_items hexhash o b = true ->
+  hash_pure hexhash o a = hash_pure hexhash o b -> eqv o a b.
+Proof.
+  intros o a b Hp Hio Hir Ta Tb Wa Wb Va Vb Da Db He.
+  apply (hash_inj_hexhash o a b Hp); auto.
+  - unfold std_mode. rewrite Hir. apply orb_true_r.
+  - unfold mode_guard. rewrite Da. apply orb_true_r.
+  - unfold mode_guard. rewrite Db. apply orb_true_r.
+Qed.
+Print Assumptions C07_hash_inj_ordered_hexhash_partial.
+
+Theorem C07_deephash_inj_hexhash_partial :
+  forall o a b,
+  plain o = true -> ignore_iterable_order o = true ->
+  tag_safe a = true -> tag_safe b = true -> wf a = true -> wf b = true ->
+  val_okb a = true -> val_okb b = true ->
+  alias_free a = true -> alias_free b = true ->
+  deephash hexhash o a = deephash hexhash o b -> eqv o a b.
+Proof.
+  intros o a b Hp Hio Ta Tb Wa Wb Va Vb Aa Ab He.
+  rewrite !deephash_pure in He; auto; try (unfold order_ok; rewrite Hio; reflexivity).
+  eapply C07_hash_inj_hexhash_partial; eauto.
+Qed.
+Print Assumptions C07_deephash_inj_hexhash_partial.
 
 (* the guards are satisfiable by a non-trivial value; the hypotheses on H by a concrete hasher *)
 Theorem C07_guards_satisfiable :
